@@ -24,6 +24,8 @@
 #ifdef SVT_VERIF_TSAN
 void __tsan_acquire(void *addr);
 void __tsan_release(void *addr);
+void AnnotateBenignRaceSized(const char *file, int line, const volatile void *mem, size_t size,
+                             const char *desc);
 #endif
 
 /* ------------------------------------------------------------------ */
@@ -226,10 +228,42 @@ int64_t svt_verif_live_bytes(void) { return __atomic_load_n(&g_res_bytes, __ATOM
 
 /* ------------------------------------------------------------------ */
 /* H6                                                                  */
+#ifdef SVT_VERIF_TSAN
+/* The hand-off flag word itself is read and written without synchronisation by
+ * construction (finding "volatile-handoff"). Its first byte is declared a benign
+ * race once per address so that, with the annotations on, TSan reports only the
+ * data accesses that the intended release/acquire protocol does not order. */
+#define VERIF_FLAG_SLOTS 16384
+static uintptr_t g_flag_seen[VERIF_FLAG_SLOTS];
+static void      verif_flag_benign(const volatile void *addr) {
+    uintptr_t a = (uintptr_t)addr;
+    uint32_t  h = (uint32_t)((a * 0x9E3779B97F4A7C15ull) >> 40) % VERIF_FLAG_SLOTS;
+    for (uint32_t probe = 0; probe < VERIF_FLAG_SLOTS; probe++) {
+        uintptr_t cur = __atomic_load_n(&g_flag_seen[h], __ATOMIC_ACQUIRE);
+        if (cur == a)
+            return;
+        if (cur == 0) {
+            uintptr_t expected = 0;
+            if (__atomic_compare_exchange_n(
+                    &g_flag_seen[h], &expected, a, 0, __ATOMIC_ACQ_REL, __ATOMIC_ACQUIRE)) {
+                AnnotateBenignRaceSized(__FILE__, __LINE__, addr, 1, "decoder volatile hand-off flag");
+                return;
+            }
+            if (expected == a)
+                return;
+        }
+        h = (h + 1) % VERIF_FLAG_SLOTS;
+    }
+}
+#endif
+
 void svt_verif_hb_release(const volatile void *addr) {
     pthread_once(&g_once, verif_init);
     __atomic_fetch_add(&g_hb_count, 1, __ATOMIC_RELAXED);
+    SVT_VERIF_TRACE(SVT_VERIF_EV_HB_RELEASE, addr, 0, 0, 0);
 #ifdef SVT_VERIF_TSAN
+    if (!g_no_hb)
+        verif_flag_benign(addr);
     if (!g_no_hb)
         __tsan_release((void *)addr);
 #else
@@ -242,6 +276,8 @@ void svt_verif_hb_release(const volatile void *addr) {
 void svt_verif_hb_acquire(const volatile void *addr) {
     pthread_once(&g_once, verif_init);
 #ifdef SVT_VERIF_TSAN
+    if (!g_no_hb)
+        verif_flag_benign(addr);
     if (!g_no_hb)
         __tsan_acquire((void *)addr);
 #else
